@@ -239,7 +239,6 @@ def explore_all(ctx, module, configs, *, pre_bound, dev_bound=0, split=0,
   subtrees = []
   from vmc.runner import _Caller, NCPU
   import multiprocessing as mp
-  import os
   if os.environ.get('VERIF_SERIAL') or len(items) == 1:
     for it in items:
       st = _seed_unit(it)
